@@ -24,6 +24,15 @@ def _basis_arg(kind, spelled):
     return GenerationBasis[kind] if spelled == 'enum' else spelled
 
 
+def design(tier, seed):
+    from .. import tlc
+
+    r = tlc.run_model('ArithLemmas', 'ArithLemmas.cfg', workers=8, tag='C07-lemma', xmx='4g')
+    tlc.cleanup(r['workdir'])
+    return {'states': r['distinct'], 'transitions': r['generated'],
+            'runs': [f'ArithLemmas (bit-sequence add/shift/mul/compare/sqrt = integer arithmetic, all a,b < 32): {r["distinct"]} states, {r["wall_s"]:.1f}s']}
+
+
 def sources(tier, seed, ctx):
     rng = random.Random(seed + 7)
     srcs = []
